@@ -33,8 +33,7 @@ pub fn make_unmake_exact<S: Src, const SIDE: u8, const KG: u8>(s: &mut S) {
         None => return,
     };
     let p = pos_of(b0.raw());
-    let m = any_m(s);
-    vassume!(in_group(m, KG));
+    let m = any_m_g::<S, SIDE, KG>(s);
     vassume!(semilegal_ref(&p, m) || (m.kind == K_NULL && wf_ref(m)));
     let mv = mv_of(m);
     let mut b = b0.clone();
@@ -83,8 +82,7 @@ pub fn nested_make_unmake<S: Src, const SIDE: u8, const KG: u8>(s: &mut S) {
         None => return,
     };
     let p = pos_of(b0.raw());
-    let m1 = any_m(s);
-    vassume!(in_group(m1, KG));
+    let m1 = any_m_g::<S, SIDE, KG>(s);
     vassume!(legal_ref(&p, m1));
     let mut b = b0.clone();
     let u1 = unsafe { moves::make_move_unchecked(&mut b, mv_of(m1)) };
